@@ -143,16 +143,39 @@ def run(ctx):
 
 
 def prefix_guard(prog, body):
-    """body rejects when one element label is a prefix of (or equal to) another"""
+    """body rejects when one element label is a prefix of (or equal to) another.
+    Accepted forms: an all-pairs scan (guard nested in two iterator loops), or an
+    adjacent-pair scan over `windows(2)` of a list sorted by (label_val, label_len)
+    — the order in which a prefix is immediately followed by a label it prefixes
+    (sorting by NodeLabel's own Ord, which is length-first, does not have that property)."""
     for g in body.guards():
         if not g['fail']:
             continue
         for fc in failconds(body, g):
             if fc[0] == 'pred' and (fc[1].endswith('is_prefix_of') or fc[1].endswith('get_prefix_ordering')) and fc[3] is True:
-                ks_blocks = [g['block']]
-                if body.in_loop(g['block']):
-                    if loop_guard_bypass(body, [g]) is None:
-                        return True
-                else:
+                if not body.in_loop(g['block']):
+                    continue
+                if loop_guard_bypass(body, [g]) is not None:
+                    continue
+                a0 = fc[2][0]
+                win = [x for x in walk(a0) if x[0] == 'call' and call_is(x, 'windows')]
+                if win:
+                    lst = arg(win[0], 0)
+                    sorts = [m for x in walk(lst) if x[0] == 'mutby' for m in x[1] if (short(m[2] or m[1]) or '').split('::')[-1].startswith('sort')]
+                    for m in sorts:
+                        clo = arg(m, 1)
+                        cb = prog.bodies.get(clo[1]) if clo and clo[0] == 'closure' else None
+                        if cb is None:
+                            continue
+                        r = result_expr(cb)
+                        if r[0] == 'call' and call_is(r, 'cmp') and all(
+                                x[0] == 'tuple' and [split_fields(y)[1] for y in x[1]] == ['label_val', 'label_len'] for x in r[3][:2]) and \
+                                split_fields(r[3][0][1][0])[0] != split_fields(r[3][1][1][0])[0]:
+                            return True
+                    continue
+                # all-pairs: two enclosing iterator loops
+                hdrs = [pos[0] for pos, t in body.call_sites() if (short(t.get('res') or t.get('fn')) or '').endswith('::next') and
+                        body.blk_dominates(pos[0], g['block']) and pos[0] in body._reach_from(g['block'])]
+                if len(hdrs) >= 2:
                     return True
     return False
